@@ -99,7 +99,9 @@ PROPS["C01"] = dict(
     level_text="TLC enumerates every tie vector with N <= 9 (thorough 12), every n1 and every allocation of tied values to the two samples, computing 2U and the exact cumulative tail counts over C(N,n1) (cross-checked against literal subset enumeration for N <= 7); the binder materialises each allocation under strictly increasing value maps and shuffles, calls MannWhitneyUTest for the three alternatives and compares N1, N2, U exactly and P to the exact rational",
     level_note=_mw_note,
     stages=[dict(name="gen", kind="gen", module="MannWhitney.tla", cfg="MW_gen.cfg",
-                 consts=dict(MaxN={"quick": 9, "thorough": 12}, CrossN={"quick": 7, "thorough": 8}, Configs="ConfigsDefault")),
+                 consts=dict(MaxN={"quick": 9, "thorough": 12}, CrossN={"quick": 7, "thorough": 8}, Configs="ConfigsDefault", StartT="StartEmpty")),
+            dict(name="mid", kind="gen", module="MannWhitney.tla", cfg="MW_gen.cfg",
+                 consts=dict(MaxN=0, CrossN=0, Configs="ConfigsWide", StartT={"quick": "MidPoolsQuick", "thorough": "MidPoolsThorough"}), timeout={"quick": 900, "thorough": 5000}),
             dict(name="large", kind="gen", family="mwlarge", module="MWLarge.tla", cfg="MWLarge.cfg", workers=6,
                       consts=dict(Sizes={"quick": "SizesQuick", "thorough": "SizesThorough"}), timeout={"quick": 600, "thorough": 3000}),
             dict(name="trace", kind="trace", module="MannWhitneyTrace.tla", cfg="MannWhitneyTrace.cfg",
@@ -112,7 +114,9 @@ PROPS["C02"] = dict(
     level_text="TLC enumerates every (N1,N2,T) with N1+N2 <= 9 (thorough 13) and emits the exact count vector (three formulations cross-checked, mirror and reversal laws checked by TLC); the binder evaluates UDist.PMF and CDF at every half-integer from -1 to N1*N2+1 and CDF at off-grid points, for T as given and T=nil when untied, against the exact rationals, plus Bounds, Step, monotonicity",
     level_note=_mw_note,
     stages=[dict(name="gen", kind="gen", module="MannWhitney.tla", cfg="MW_gen.cfg",
-                 consts=dict(MaxN={"quick": 9, "thorough": 13}, CrossN={"quick": 7, "thorough": 8}, Configs="ConfigsDefault")),
+                 consts=dict(MaxN={"quick": 9, "thorough": 13}, CrossN={"quick": 7, "thorough": 8}, Configs="ConfigsDefault", StartT="StartEmpty")),
+            dict(name="mid", kind="gen", module="MannWhitney.tla", cfg="MW_gen.cfg",
+                 consts=dict(MaxN=0, CrossN=0, Configs="ConfigsWide", StartT={"quick": "MidPoolsQuick", "thorough": "MidPoolsThorough"}), timeout={"quick": 900, "thorough": 5000}),
             dict(name="large", kind="gen", family="mwlarge", module="MWLarge.tla", cfg="MWLarge.cfg", workers=6,
                       consts=dict(Sizes={"quick": "SizesQuick", "thorough": "SizesThorough"}), timeout={"quick": 600, "thorough": 3000})],
 )
@@ -122,7 +126,7 @@ PROPS["C03"] = dict(
     level_text="TLC enumerates every tie vector with N <= 7 (thorough 9), every split including empty samples and single-valued pools, under the limit configurations (50,25), (0,0), (3,2), (1000,1000); each case carries the expected error or method and either exact tails or the approximation descriptor (variance as an exact rational, continuity-corrected numerator); the binder sets the public limit variables, calls the test for all alternatives, the swapped call, shuffled and monotonically mapped data, and snapshots the arguments",
     level_note=_mw_note + " In the trace direction (samples up to 300 values, limits changed mid-history) TLC decides U, errors, the method switch-over, twin laws and - for pools up to DPMaxN - the exact P; the numeric value of the approximate P at large sizes is decided in the replay direction on small pools only (the formula is size-independent).",
     stages=[dict(name="gen", kind="gen", module="MannWhitney.tla", cfg="MW_gen.cfg",
-                 consts=dict(MaxN={"quick": 7, "thorough": 9}, CrossN={"quick": 6, "thorough": 7}, Configs="ConfigsFour")),
+                 consts=dict(MaxN={"quick": 7, "thorough": 9}, CrossN={"quick": 6, "thorough": 7}, Configs="ConfigsSix", StartT="StartEmpty")),
             dict(name="trace", kind="trace", module="MannWhitneyTrace.tla", cfg="MannWhitneyTrace.cfg",
                       consts=dict(DPMaxN={"quick": 12, "thorough": 18}),
                       record_args={"quick": ["-n", 24, "-calls", 5, "-max", 80], "thorough": ["-n", 480, "-calls", 8, "-max", 300]})],
